@@ -68,30 +68,31 @@ def api_monitor(case, rec):
     identifier as the real code reports it (two different generated graphs may be the same configuration, e.g. when
     they differ in ignored values only)."""
     fails = []
-    first_of = {}  # identifier -> number (among submissions) of the first submission still standing
-    failing = set(rec.get("failing", []))
+    first_of = {}  # identifier -> number (among submissions) of its first submission
+    subs_of = {}   # identifier -> all its submissions so far
+    failing = set(rec.get("failing", []))  # these fail the first time they run: a later submission may or may not be a re-submission
     sub = -1
     njobs_prev = 0
     for st, r in zip(case["history"], rec["steps"]):
         if st.get("wait"):
-            # after a wait every earlier job is final: those that fail the first time have failed
-            for ident in list(first_of):
-                if ident in failing:
-                    first_of.pop(ident)
-                    failing.discard(ident)
             continue
         sub += 1
         ident = r["identifier"]
-        if ident in first_of:
-            if ident not in failing:
-                if r["ret"] != first_of[ident]:
-                    fails.append(("submit-returned-other-object", f"submission {sub} of a configuration identical to submission {first_of[ident]} returned the output of submission {r['ret']}"))
-                if r["njobs"] != njobs_prev:
-                    fails.append(("duplicate-created-second-job", f"submission {sub} (identical to {first_of[ident]}) changed the number of registered jobs {njobs_prev} -> {r['njobs']}"))
+        if ident in failing:
+            # timing decides whether the first job has failed already: the returned output is that of some submission of
+            # this very configuration
+            if r["ret"] != sub and r["ret"] not in subs_of.get(ident, []):
+                fails.append(("submit-returned-other-object", f"submission {sub} returned the output of submission {r['ret']}, which is a different configuration"))
+        elif ident in first_of:
+            if r["ret"] != first_of[ident]:
+                fails.append(("submit-returned-other-object", f"submission {sub} of a configuration identical to submission {first_of[ident]} returned the output of submission {r['ret']}"))
+            if r["njobs"] != njobs_prev:
+                fails.append(("duplicate-created-second-job", f"submission {sub} (identical to {first_of[ident]}) changed the number of registered jobs {njobs_prev} -> {r['njobs']}"))
         else:
             first_of[ident] = sub
             if r["ret"] != sub:
                 fails.append(("submit-returned-other-object", f"submission {sub} of a new configuration returned the output of submission {r['ret']}"))
+        subs_of.setdefault(ident, []).append(sub)
         njobs_prev = r["njobs"]
     if rec.get("hang"):
         fails.append(("experiment-does-not-finish", "the experiment did not finish within the time limit (submission history with duplicates, instant launcher)"))
@@ -154,7 +155,7 @@ def run_worker_cases(ctx, kind, cases, parallel=8, module="xv.impl.restart_worke
 
 
 def race_cases(ctx, rng):
-    n = ctx.scale(8, 60)
+    n = ctx.scale(12, 60)
     cases = []
     for i in range(n):
         k = rng.choice([2, 3, 3])
@@ -259,7 +260,7 @@ def race_part(ctx):
 def correspond(ctx):
     ctx.assumptions += ["mutual exclusion of the run lock and its release on process death are properties of flock (trusted; sampled by the races)",
                         "the real-API histories use an instant launcher (no job process): they exercise submit(), the registry and aio_submit, not run.py"]
-    _sched.run(ctx, PROP, GEN, RULE, 500, 25000, focus={"C05"}, nontrivial_fn=_nontrivial)
+    _sched.run(ctx, PROP, GEN, RULE, 1500, 25000, focus={"C05"}, nontrivial_fn=_nontrivial)
     api_part(ctx)
     race_part(ctx)
     ctx.rule = RULE
